@@ -203,6 +203,9 @@ def check(repo: Repo, run: Run) -> None:
     take_over(run, "c13", "C13", repo, lambda o: o["rule"] == "R6", "R0", "objects of its own per parse",
               "state kept in an object every parser shares outlives the parse that wrote it: a cut dump parsed after the complete one "
               "reports what only the complete one contained", 1)
+    take_over(run, "c15", "C15", repo, lambda o: o["rule"] == "R4" and "one pass over the sampled frames" in o["construct"], "R0",
+              "a reported callstack is complete when it is reported", "frames that are resolved later, against image tables that keep "
+              "growing as the rest of the dump is read, make a reported callstack depend on how far the dump was read", 1)
     take_over(run, "c14", "C14", repo, lambda o: o["rule"] == "R2" and o["scope"] == "PyKdebugParser.__init__", "R0",
               "tables of its own per parser", "tables that every parser object shares keep what an earlier parse learnt: a cut dump "
               "parsed after the complete one reports what only the complete one contained", 1)
@@ -379,6 +382,13 @@ def check(repo: Repo, run: Run) -> None:
     if not brk and len(loops) == 1 and _counted_takewhile(loops[0].iter):
         stops = True
     mats = [c for c in rec.calls if c.func.op == "builtin" and c.func.a[0] in pipeline.MATERIALISERS and gen in c.args]
+    if not loops and not prints and any(sym.pretty(c.func).endswith((".writelines", ".write")) for c in rec.calls) \
+            and not mats:
+        # the lines are handed to the stream by writelines() over a lazy pipeline (takewhile / islice / map): the same job done
+        # by library iterators, which these rules do not follow
+        run.floor_failures.append("C06/R3: print_with_count writes its lines through stream.writelines(<lazy pipeline>): whether each "
+                                  "element is printed as it arrives and the count stops the reading is not decided")
+        return
     run.ob("R3", main.name, "print_with_count", "prints each element as it arrives", ok and not mats,
            "print_with_count does not print each element of the generator inside a single loop over it", line=fn.lineno)
     run.ob("R3", main.name, "print_with_count", "stops consuming when the count is reached (test before print)", stops,
